@@ -131,7 +131,7 @@ def explore(cfg, eng, ctx, sides=("ccube", "xcube")):
             ish = tuple(int(x) for x in cube.interacting_shape)
             cs = []
             aggs.compare(data, res, fmt, agg, ignore, ish, side, cs)
-            eng.assert_(z3.And(*[c for _, c, _ in cs]), "%s %s differs from the direct per-cell computation" % (side, agg))
+            aggs.assert_all(eng, cs, "%s %s differs from the direct per-cell computation" % (side, agg))
         ctx.end_path()
 
     eng.explore(path)
